@@ -481,6 +481,8 @@ func TestVerifC18(t *testing.T) {
 		evid.Infra("%v", err)
 	}
 	defer os.RemoveAll(scratch)
+	evid.CleanupDir(scratch)
+	evid.CleanupDir(filepath.Dir(t.TempDir())) // testing's per-test directory: its own cleanup does not run on os.Exit
 	w := c18Produce(ctx, t, n)
 	// dry run: the hit sequences of both threads
 	dry := c18Scenario(ctx, t, w, filepath.Join(scratch, "dry"), -1, -1, true)
@@ -584,6 +586,7 @@ func TestVerifC18(t *testing.T) {
 			fmt.Println(" ", v.Key, v.What)
 		}
 		os.RemoveAll(scratch)
+		evid.RunCleanup()
 		if len(res.Violations) > 0 {
 			os.Exit(1)
 		}
